@@ -636,7 +636,7 @@ impl Property for C39 {
         "accumulated-step-panic-threshold (single number only, negative accepted and then trips on the first step) is labelled, not judged: the statement names the two-form thresholds",
     ];
     const QUICK_CASES: u32 = 300_000;
-    const THOROUGH_CASES: u32 = 2_000_000;
+    const THOROUGH_CASES: u32 = 15_000_000;
 
     fn strategy(_tier: Tier) -> BoxedStrategy<Case> {
         prop_oneof![
